@@ -185,6 +185,8 @@ def show(v, ty):
     if ty == W:
         return "wahr" if v else "falsch"
     if ty == C:
+        if v.cp == 0:      # texts are NUL-terminated: U+0000 cannot be printed or stored in a Text
+            raise ModelDomain("U+0000 is outside the representable domain of texts")
         return chr(v.cp)
     if ty == T:
         return v
@@ -827,6 +829,8 @@ class Evaluator:
                 if t.a.ty == T:
                     if not (1 <= idx <= len(cont)):
                         raise RuntimeErr("index")
+                    if v.cp == 0:
+                        raise ModelDomain("U+0000 cannot be stored in a Text")
                     base.set(cont[:idx - 1] + chr(v.cp) + cont[idx:])
                 else:
                     if not (1 <= idx <= len(cont)):
@@ -998,6 +1002,8 @@ class Evaluator:
             return {"kleiner": a < b, "groesser": a > b, "kleinergleich": a <= b, "groessergleich": a >= b}[op]
         if op == "verkettet":
             if e.ty == T:
+                if (ta == C and a.cp == 0) or (tb == C and b.cp == 0):
+                    raise ModelDomain("U+0000 cannot be stored in a Text")
                 sa = chr(a.cp) if ta == C else a
                 sb = chr(b.cp) if tb == C else b
                 return sa + sb
@@ -1078,6 +1084,8 @@ class Evaluator:
             if src == W:
                 return "wahr" if v else "falsch"
             if src == C:
+                if v.cp == 0:
+                    raise ModelDomain("U+0000 cannot be stored in a Text")
                 return chr(v.cp)
         raise ModelDomain("cast %r -> %r" % (src, dst))
 
